@@ -74,6 +74,11 @@ fn run_capture(mut c: Command) -> Result<(bool, String, String), String> {
 
 /// `panicked at <file>:<line>:<col>:` + message line, from the stderr of an aborted test process.
 fn panic_site(stderr: &str) -> Option<(String, String)> {
+    // `abort_assert!` of hydro_lang/src/sim/compiled.rs: an internal invariant of the simulator failed
+    if let Some(l) = stderr.lines().find(|l| l.contains("Simulator internal error:")) {
+        let msg = l[l.find("Simulator internal error:").unwrap()..].to_string();
+        return Some(("/repo/hydro_lang/src/sim/compiled.rs:abort_assert".to_string(), msg));
+    }
     let mut it = stderr.lines();
     while let Some(l) = it.next() {
         if let Some(pos) = l.find("panicked at ") {
@@ -159,7 +164,7 @@ pub fn run(prop: &str, args: &Args) -> LegResult {
     if st_n > 0 {
         let mut hs = vec![];
         let mut sut_abort: Option<String> = None;
-        let mut legs: Vec<(String, Option<PathBuf>, Option<&str>)> = vec![("process A".into(), None, None), ("process B".into(), None, None)];
+        let legs: Vec<(String, Option<PathBuf>, Option<&str>)> = vec![("process A".into(), None, None), ("process B".into(), None, None)];
         // (the hash-seed variation is exercised by C38's own child-process leg, where the shim is
         // preloaded into the test binary only, never into cargo/rustc)
         let mut children = vec![];
